@@ -5,6 +5,7 @@
 
 mod certdrv;
 mod csrdrv;
+mod csrparsedrv;
 mod der;
 mod desc;
 mod faultdrv;
@@ -45,6 +46,7 @@ fn main() {
 		"pem" => keydrv::run_pem(&args[2], &args[3]),
 		"sign-faults" => faultdrv::run_cases(&args[2], &args[3], &args[4]),
 		"import" => importdrv::run(&args[2], &args[3], &args[4], &args[5]),
+		"csr-parse" => csrparsedrv::run(&args[2], &args[3]),
 		"dn-cases" => dndrv::run_cases(&args[2], &args[3]),
 		"dn-random" => dndrv::run_random(&args[2], args[3].parse().unwrap(), args[4].parse().unwrap()),
 		other => {
